@@ -15,12 +15,21 @@
       relabelled target under every outcome script and the listed graphs are pairwise different — no hypothesis on the solver, the
       conversion, the LC decision or the explorers; side conditions: simple graphs on `np` vertices, and the relabel maps pass the
       isomorphism test recorded as the specification of networkx `GraphMatcher` (both decidable, evaluated on every observed run).
+    * `alternate_target_result_sound_in_orbit` / `explorer_outputs_in_orbit`: the same with "the LC graphs are simple" replaced by "the LC
+      graphs lie in the orbit", which C16 proves of the four modelled explorers.
+    * when `solve` RETURNS: `alternate_target_returns_if_yes` (every target on ≥ 1 vertex without isolated vertex, explorers in the orbit:
+      it returns as soon as `is_lc_equivalent` says yes on every pair it is asked about — the solver returns by C02 completeness, `lc_check` is
+      total and validated by C09, `str_to_op` knows every emitted gate name) and `alternate_target_returns_partial` (relative to the
+      completeness of the LC decision, `lc_decision_complete_statement`, which C09 reduces to the pair-sum claim of the literature).
   Orbit membership of the listed graph is decided per output by the harness (independent BFS); the explorers are C16.
 -/
 import GraphiqModel.Properties.C02
 import GraphiqModel.Proofs.AltTarget
 import GraphiqModel.Proofs.AltTargetLoop
 import GraphiqModel.Proofs.AltTargetFinal
+import GraphiqModel.Proofs.AltTargetReturns
+import GraphiqModel.Proofs.AltTargetReturnsConv
+import GraphiqModel.Proofs.LCTotalR
 namespace Graphiq.C10
 open Graphiq Graphiq.PRow Graphiq.Tab Graphiq.STab
 
@@ -265,6 +274,88 @@ theorem explorer_outputs_in_orbit (np nlc : Nat) (iso : BMat) (hr : iso.r = np) 
   · exact depthFirstOrbit_inOrbit isoTest fuel iso paths out hc hs e lc (List.mem_of_mem_take hl)
   · exact lcOrbitFinder_inOrbit cfg isoTest fuel iso draws shuffles out hc hs hv e lc (List.mem_of_mem_take hl)
 
+/-! ### When does `solve` return? -/
+
+/-- **`solve` returns whenever `is_lc_equivalent` says yes on every pair it is asked about** (every target on ≥ 1 vertex without isolated
+    vertex, every list of relabelled targets whose maps pass the `GraphMatcher` specification, every family of LC graphs inside the orbits):
+    the time-reversed solver returns on every LC graph (C02 `model_solver_returns`: "no isolated vertex" is inherited along isomorphisms and
+    local complementations), `lc_check(…, validate=True)` is total and after a `yes` returns validated gates (C09 `lc_check_total_and_right`:
+    neither the assertion of `converter_gate_list` nor the validation warning can fire), `str_to_op` knows every gate name `lc_check` emits
+    (`Alt.lcCheckR_names`), and the loops only pass exceptions on.  `hyes` is decidable; the modelled conversion is run by the driver on every
+    observed pair and compared with the implementation's. -/
+theorem alternate_target_returns_if_yes (pick : List Nat → Nat) (np : Nat) (target : Nat → Nat → Bool)
+    (isoAdjs : List BMat) (lcGraphs : BMat → List BMat) (relabelMap : BMat → List Nat)
+    (hnp : 0 < np) (htarget : Simple np target) (hniso : Alt.NoIsolated np target)
+    (hshape : ∀ iso, iso ∈ isoAdjs → iso.r = np)
+    (horbit : ∀ iso lc, iso ∈ isoAdjs → lc ∈ lcGraphs iso → InOrbit np iso.f lc)
+    (hmatch : ∀ iso, iso ∈ isoAdjs → isIsoMap np target iso.f (relabelMap iso) = true)
+    (hyes : ∀ iso lc, iso ∈ isoAdjs → lc ∈ lcGraphs iso →
+      ∃ out, LC.isLcEquivalentR lc iso .det [] = .ok out ∧ out.sol.isSome = true) :
+    ∃ out, Alt.solve (modelParts np isoAdjs lcGraphs relabelMap) pick = .ok out := by
+  apply Alt.solve_ok
+  intro iso h1 lc h2
+  have hsi : Simple np iso.f := Alt.simple_of_isIsoMap np target iso.f _ htarget (hmatch iso h1)
+  have hni : Alt.NoIsolated np iso.f := Alt.noIsolated_of_isIsoMap np target iso.f _ hniso (hmatch iso h1)
+  have ho := horbit iso lc h1 h2
+  have hsl : Simple np lc.f := ho.simple hsi
+  have hnl : Alt.NoIsolated np lc.f := Alt.InOrbit.noIsolated hsi hni ho
+  constructor
+  · -- the time-reversed solver returns
+    obtain ⟨ne, ops, e⟩ := C02.model_solver_returns np (Alt.cutAdj np lc.f) hnp (Alt.cutAdj_symm np lc.f hsl)
+      (fun i => by
+        by_cases hi : i < np
+        · rw [Alt.cutAdj_agree np lc.f i i hi hi]; exact hsl.2 i hi
+        · simp [Alt.cutAdj, hi])
+      (fun i hi => by
+        obtain ⟨j, hj, e⟩ := hnl i hi
+        exact ⟨j, hj, by rw [Alt.cutAdj_agree np lc.f i j hi hj]; exact e⟩)
+    exact ⟨(ne, ops), e⟩
+  · -- the conversion returns
+    have hr : lc.r = np := ho.1
+    have hab : lc.r = iso.r := by rw [hr, hshape iso h1]
+    obtain ⟨out, e, hs⟩ := hyes iso lc h1 h2
+    cases hsol : out.sol with
+    | none => rw [hsol] at hs; cases hs
+    | some s =>
+      obtain ⟨zs, _, hc⟩ := LC.lcCheckR_of_yes lc iso out s hab (by rw [hr]; exact hsl) (by rw [hshape iso h1]; exact hsi) e hsol
+      exact Alt.convModel_isSome lc iso _ (hc true)
+
+/-- "the repaired `is_lc_equivalent` never says no on two graphs of the same LC orbit": the completeness half of C09
+    `decides_lc_equivalence_repaired_statement`, which C09 proves (`decides_lc_equivalence_repaired_partial`) relative to the one claim of
+    the literature it leaves unproved, the completeness of the pair-sum shortcut on connected graphs
+    (`shortcut_complete_on_connected_statement`); restated here because `Properties/C09.lean` and `Properties/C02.lean` cannot be imported
+    together yet (duplicate `b2z` in `Proofs/GF2Matrix.lean` / `Proofs/HeightEntropy.lean`) -/
+def lc_decision_complete_statement : Prop :=
+  ∀ (a b : BMat) (out : LC.EqOutR), 0 < a.r → a.r = b.r → Simple a.r a.f → Simple b.r b.f →
+    LC.isLcEquivalentR a b .det [] = .ok out →
+    (∃ vs : List Nat, (∀ v ∈ vs, v < a.r) ∧ EqAdj a.r (applySeq a.f vs) b.f) → out.sol.isSome = true
+
+/-- **relative to the completeness of the LC decision, `solve` returns** for every target on ≥ 1 vertex without isolated vertex when the
+    explorers stay in the orbits (C16) and the maps pass the `GraphMatcher` specification: the repaired `is_lc_equivalent` is total (C09)
+    and then says yes on every pair of the same orbit (the orbit relation is symmetric, `Alt.InOrbit.back`).  Together with
+    `alternate_target_result_sound_in_orbit`: it returns, and every entry generates the relabelled target. -/
+theorem alternate_target_returns_partial (hdec : lc_decision_complete_statement)
+    (pick : List Nat → Nat) (np : Nat) (target : Nat → Nat → Bool)
+    (isoAdjs : List BMat) (lcGraphs : BMat → List BMat) (relabelMap : BMat → List Nat)
+    (hnp : 0 < np) (htarget : Simple np target) (hniso : Alt.NoIsolated np target)
+    (hshape : ∀ iso, iso ∈ isoAdjs → iso.r = np)
+    (horbit : ∀ iso lc, iso ∈ isoAdjs → lc ∈ lcGraphs iso → InOrbit np iso.f lc)
+    (hmatch : ∀ iso, iso ∈ isoAdjs → isIsoMap np target iso.f (relabelMap iso) = true) :
+    ∃ out, Alt.solve (modelParts np isoAdjs lcGraphs relabelMap) pick = .ok out := by
+  refine alternate_target_returns_if_yes pick np target isoAdjs lcGraphs relabelMap hnp htarget hniso hshape horbit hmatch ?_
+  intro iso lc h1 h2
+  have hsi : Simple np iso.f := Alt.simple_of_isIsoMap np target iso.f _ htarget (hmatch iso h1)
+  have ho := horbit iso lc h1 h2
+  have hsl : Simple np lc.f := ho.simple hsi
+  have hr : lc.r = np := ho.1
+  have hab : lc.r = iso.r := by rw [hr, hshape iso h1]
+  have ha : Simple lc.r lc.f := by rw [hr]; exact hsl
+  obtain ⟨out, e⟩ := LC.isLcEquivalentR_total lc iso .det [] hab ha (by decide)
+  refine ⟨out, e, hdec lc iso out (by rw [hr]; exact hnp) hab ha (by rw [hshape iso h1]; exact hsi) e ?_⟩
+  obtain ⟨vs, hvs, hb⟩ := Alt.InOrbit.back hsi ho
+  rw [hr]
+  exact ⟨vs, hvs, hb⟩
+
 /-! ### Non-vacuity of `solve_result_correct`: one relabelled target (the path 0–1–2 itself), one LC graph, the known circuit -/
 def pathB : BMat := (BMat.ofAdj 3 C02.lin3adj)
 def demoParts : Alt.Parts :=
@@ -307,6 +398,24 @@ example : Simple 3 C02.lin3adj ∧ isIsoMap 3 C02.lin3adj pathB.f [0, 1, 2] = tr
   · intro i hi
     have h1 : i = 0 ∨ i = 1 ∨ i = 2 := by omega
     rcases h1 with rfl | rfl | rfl <;> decide
+
+/-- the additional hypotheses of `alternate_target_returns_if_yes` hold for this instance as well: no isolated vertex, the triangle is in the
+    LC orbit of the path (complement at vertex 1), and the repaired `is_lc_equivalent` says yes -/
+example : Alt.NoIsolated 3 C02.lin3adj ∧ InOrbit 3 pathB.f triB := by
+  refine ⟨?_, rfl, rfl, [1], by simp, ?_⟩
+  · intro i hi
+    have h1 : i = 0 ∨ i = 1 ∨ i = 2 := by omega
+    rcases h1 with rfl | rfl | rfl
+    · exact ⟨1, by omega, by decide⟩
+    · exact ⟨0, by omega, by decide⟩
+    · exact ⟨1, by omega, by decide⟩
+  · intro i j hi hj
+    have h1 : i = 0 ∨ i = 1 ∨ i = 2 := by omega
+    have h2 : j = 0 ∨ j = 1 ∨ j = 2 := by omega
+    rcases h1 with rfl | rfl | rfl <;> rcases h2 with rfl | rfl | rfl <;> decide
+set_option maxRecDepth 100000 in
+example : (match LC.isLcEquivalentR triB pathB .det [] with | .ok out => out.sol.isSome | .error _ => false) = true := by
+  decide +kernel
 
 /-! ### Non-vacuity: renaming the path 0–1–2 by the permutation [2, 0, 1] gives the path 2–0–1 -/
 def path3 : Nat → Nat → Bool := fun i j => (i == 0 && j == 1) || (i == 1 && j == 0) || (i == 1 && j == 2) || (i == 2 && j == 1)
